@@ -10,6 +10,10 @@
 //                      component i = (seed + 37 i + 101 (i / 251)) mod 256 for bytes, the bit pattern 0x3f800000 + seed + i for floats
 //   harness imgstack <fmt> <outdir> <w> <h> <stackbytes>
 //        one call of the writer on a thread whose stack has <stackbytes> bytes; prints the path of the file
+//   harness race <outdir> <nthreads> <rounds>
+//        per round: a fresh recorder; <nthreads> threads are released together by a barrier and each records its FIRST
+//        event at once (the registration of its event list), then a marker, a counter and the end; after the join
+//        saveLog and a check that every thread's three names occur exactly once in the file.  Meant for the TSan build.
 //   harness trace <outdir>
 //        stdin lines:  T <pname|-> { | <tname|-> op op ... }     one "|" group per thread; "||" instead of "|" first joins all
 //                      threads started so far (a new phase: later threads do not overlap earlier ones and may be given
@@ -21,7 +25,10 @@
 //                      ("-" for a thread that has no event list or an empty one), then "#" and a hash of the
 //                      thread's std::thread::id (sizes and times are those of the list the thread records into at its
 //                      end: the whole shared list when it continues the list of an earlier thread with the same id)
+#include <atomic>
+#include <condition_variable>
 #include <cstdint>
+#include <fstream>
 #include <cstdio>
 #include <cstdlib>
 #include <cstring>
@@ -231,8 +238,75 @@ static int mainTrace(const std::string &outdir)
   return 0;
 }
 
+// ------------------------------------------------------------------------ concurrent first events
+// barrier on a mutex + condition variable (no spinning: cheap under ThreadSanitizer and under CPU load)
+static std::mutex g_barM;
+static std::condition_variable g_barCV;
+static int g_arrived = 0, g_release = 0;
+
+static void raceWorker(int round, int k)
+{
+  const std::string tag = "r" + std::to_string(round) + "_t" + std::to_string(k);
+  const char *ev = literal(tag + "_first"), *mk = literal(tag + "_mark"), *ct = literal(tag + "_count");
+  {
+    std::unique_lock<std::mutex> lk(g_barM);
+    ++g_arrived;
+    g_barCV.notify_all();
+    g_barCV.wait(lk, [&] { return g_release == round + 1; });
+  }
+  tracing::beginEvent(ev, nullptr);          // the thread's first tracing call: registers its event list
+  tracing::setMarker(mk, nullptr);
+  tracing::setCounter(ct, (uint64_t)k);
+  tracing::endEvent();
+}
+
+static size_t countOcc(const std::string &hay, const std::string &needle)
+{
+  size_t n = 0, pos = 0;
+  while ((pos = hay.find(needle, pos)) != std::string::npos) { ++n; pos += needle.size(); }
+  return n;
+}
+
+static int mainRace(const std::string &outdir, int nthreads, int rounds)
+{
+  const std::string path = outdir + "/race_" + std::to_string(nthreads) + ".json";
+  for (int r = 0; r < rounds; ++r) {
+    tracing::traceRecorder = rkcommon::make_unique<tracing::TraceRecorder>();
+    tracing::threadEventList = nullptr;
+    { std::lock_guard<std::mutex> lk(g_barM); g_arrived = 0; }
+    std::vector<std::thread> th;
+    for (int k = 0; k < nthreads; ++k) th.emplace_back(raceWorker, r, k);
+    {
+      std::unique_lock<std::mutex> lk(g_barM);
+      g_barCV.wait(lk, [&] { return g_arrived == nthreads; });
+      g_release = r + 1;
+      g_barCV.notify_all();
+    }
+    for (auto &t : th) t.join();
+    std::remove(path.c_str());
+    tracing::saveLog(path.c_str(), nullptr);
+    std::ifstream fin(path.c_str());
+    std::stringstream ss; ss << fin.rdbuf();
+    const std::string text = ss.str();
+    for (int k = 0; k < nthreads; ++k) {
+      const std::string tag = "r" + std::to_string(r) + "_t" + std::to_string(k);
+      for (const char *suffix : {"_first", "_mark", "_count"}) {
+        size_t c = countOcc(text, "\"name\":\"" + tag + suffix + "\"");
+        if (c != 1) {
+          std::cout << "FAIL round=" << r << " threads=" << nthreads << " event " << tag << suffix << " occurs " << c
+                    << " times in the log (file " << path << ")" << std::endl;
+          return 0;
+        }
+      }
+    }
+  }
+  std::cout << "OK threads=" << nthreads << " rounds=" << rounds << " " << path << std::endl;
+  return 0;
+}
+
 int main(int argc, char **argv)
 {
+  if (argc >= 5 && std::string(argv[1]) == "race") return mainRace(argv[2], atoi(argv[3]), atoi(argv[4]));
   if (argc >= 4 && std::string(argv[1]) == "img") return mainImg(argv[2], argv[3], argc > 4 ? (size_t)atol(argv[4]) : 0, false);
   if (argc >= 4 && std::string(argv[1]) == "imgpat") return mainImg(argv[2], argv[3], 0, true);
   if (argc >= 7 && std::string(argv[1]) == "imgstack") return mainImgStack(argv[2], argv[3], atoi(argv[4]), atoi(argv[5]), (size_t)atol(argv[6]));
